@@ -57,6 +57,14 @@ def strip(st, keep_tree=True):
     if not keep_tree:
         out["tree"] = []
     out["inodes"] = [{k: i[k] for k in INODE_KEYS if k in i} for i in st.get("inodes", ())]
+    dirs = []
+    for d in st.get("dirs", ()):
+        e = dict(d)
+        e["ents"] = [en[:4] for en in d["ents"]]        # <<ino, ft, ix, dot>>; names travel in "tree"
+        dirs.append(e)
+    out["dirs"] = dirs
+    for k in ("dir_info", "unsupported", "backups", "short_reads"):
+        out.pop(k, None)
     return out
 
 
